@@ -142,6 +142,79 @@ def rxc_during_join(c, res):
                 'VARIANT(Err only for State::Unjoined)', instance='Mac::handle_rxc: a frame heard while a join is in progress is no update (error only when unjoined)')
 
 
+def _mentions_hmr(t):
+    if isinstance(t, tuple):
+        if len(t) == 4 and t[0] == 'call' and isinstance(t[1], str) and t[1].endswith('Device::handle_mac_response'):
+            return True
+        return any(_mentions_hmr(x) for x in t)
+    return False
+
+
+def rxc_keeps_listening(c, res):
+    """Class C listening between the windows of a transaction (async between_windows): the loop runs `while let Some(t) = maybe_timeout.take()`
+    and ends when the pending window timer is not put back. A frame the MAC does not accept (handle_mac_response gives None) must leave the
+    listening phase exactly as it was: every path from that arm back to the loop head re-arms the timer (stores Some(..) to the option the
+    head takes from); otherwise a rejected frame ends the phase and the next receive window opens at once"""
+    name = 'lorawan_device::async_device::Device::between_windows::{closure#0}'
+    if not c.has(name):
+        return
+    bf = c.bf(name)
+    body = bf.body
+    takes = [(bb, t) for bb, t in bf.calls() if callee_name(t).endswith('Option::take')]
+    hmr = [(bb, t) for bb, t in bf.calls() if callee_name(t).endswith('Device::handle_mac_response')]
+    if not takes or not hmr:
+        return          # no Class C listening loop in this build
+    # the option local the loop head takes from
+    head_bb, tk = takes[0]
+    root = bf.root_of_operand(tk.args[0])
+    opt_local = root[0] if root else None
+    rearm = set()
+    for b in body.blocks:
+        if b.cleanup:
+            continue
+        for s_ in b.stmts:
+            if s_.k == 'assign' and not s_.lhs.proj and s_.lhs.local == opt_local and bf.cfg.can_reach(head_bb, b.idx):
+                is_some = s_.rv.k == 'agg' and s_.rv.d.get('variant') == 'Some'
+                if s_.rv.k == 'use':
+                    tv = term_of_operand(bf, s_.rv.ops[0])
+                    is_some = isinstance(tv, tuple) and tv[:1] == ('agg',) and str(tv[1]).endswith('Option::Some')
+                if is_some:
+                    rearm.add(b.idx)
+    # the None arm of the awaited handle_mac_response result: a switch on the discriminant of an Option<mac::Response> local
+    none_targets = []
+    for b in body.blocks:
+        t = b.term
+        if b.cleanup or t.k != 'switch' or t.discr.place is None or not bf.cfg.can_reach(hmr[0][0], b.idx) or not bf.cfg.can_reach(head_bb, b.idx):
+            continue
+        rv = bf.single_rvalue(t.discr.place.local)
+        # ... the option that is the (awaited, `?`-unwrapped) result of handle_mac_response for the frame just heard - not the loop's own
+        # `response` variable, which holds what earlier accepted frames produced
+        if rv is not None and rv.k == 'discr' and body.locals[rv.place.local].replace(' ', '').startswith('core::option::Option<lorawan_device::mac::Response') and \
+                _mentions_hmr(rules.term_of_place(bf, rv.place)):
+            for v, tg in t.targets:
+                if v == 0:
+                    none_targets.append(tg)
+    if opt_local is None or not rearm or not none_targets:
+        raise CheckError('anchor: Class C listening loop of between_windows (option local %s, re-arm sites %d, None arms %d)' % (opt_local, len(rearm), len(none_targets)))
+    leak = []
+    for n0 in none_targets:
+        seen, todo = {n0}, [n0]
+        while todo:
+            x = todo.pop()
+            if x in rearm:
+                continue
+            if x == head_bb:
+                leak.append(n0)
+                break
+            for y in bf.cfg.succ[x]:
+                if y not in seen and not body.blocks[y].cleanup:
+                    seen.add(y)
+                    todo.append(y)
+    res.require(not leak, 'C07:async::between_windows:rejected-frame-ends-listening', 'after a frame the MAC did not accept, the Class C listening loop can come back to its head without the window timer put back: '
+                'the listening phase ends and the next receive window is opened at once instead of at its time', short_site(bf, leak[0]) if leak else bf.body.path,
+                'MUST-PASS(NoUpdate arm -> timer re-armed -> loop head)', instance='async between_windows: an unaccepted frame leaves the Class C listening phase running (timer re-armed)')
+
+
 def mac_handle_rx(c, res):
     for fn, floor in (('handle_rx', 1), ('handle_rxc', 0)):
         name = 'lorawan_device::mac::Mac::' + fn
@@ -281,6 +354,7 @@ def run(tier):
         otaa_handle_rx(c, res)
         mac_handle_rx(c, res)
         rxc_during_join(c, res)
+        rxc_keeps_listening(c, res)
         nb_noupdate(c, res)
         async_noupdate(c, res)
         res.coverage.setdefault('configs', []).append(c.info)
